@@ -296,18 +296,38 @@ class Ownership:
                         nxt = ft[1]
                 cur_cls = nxt
                 continue
-            if per_run and i == len(path) - 1 and path.count('[]') == 0 and False:
-                break
-            # a field the instance did not create: handed in from outside
             if per_run:
-                if i == len(path) - 1:
-                    # writing the attribute slot itself of a per-run object (self.x = ...) is per-run;
-                    # but here `path` is the *object written into*, so reaching it through a foreign
-                    # field means the object is foreign
-                    pass
+                # a *declared* field the instance did not create (dag, ctx ...) was handed in from outside;
+                # an attribute the class does not declare at all (UserDict.data, attributes of external
+                # bases) is part of the object itself
+                declared = self.p.lookup_field(cur_cls, seg) is not None or self._init_param_field(cur_cls, seg)
+                if not declared:
+                    cur_cls = None
+                    continue
                 return [(f'shared:{seg}', shown)]
             return [('shared:self', shown)]
         return [('per-run', shown)]
+
+    def _init_param_field(self, ci: ClassInfo, name: str) -> bool:
+        """self.<name> = <parameter> in __init__: the object comes from the caller."""
+        for c in self.p.mro(ci):
+            if not isinstance(c, ClassInfo):
+                continue
+            init = c.methods.get('__init__')
+            if init is None:
+                continue
+            params = set(init.params())
+            for n in ast.walk(init.node):
+                if isinstance(n, (ast.Assign, ast.AnnAssign)):
+                    tgts = n.targets if isinstance(n, ast.Assign) else [n.target]
+                    for t in tgts:
+                        if isinstance(t, ast.Attribute) and isinstance(t.value, ast.Name) and t.value.id == 'self' and t.attr == name:
+                            v = n.value
+                            if isinstance(v, ast.Name) and v.id in params:
+                                return True
+                            if isinstance(v, ast.IfExp) and isinstance(v.body, ast.Name) and v.body.id in params:
+                                return True
+        return False
 
     def _owner_kind(self, ci: ClassInfo) -> str:
         """per-run if instances of the class are created per run (manager, its storage, locks, context)."""
